@@ -259,7 +259,7 @@ def gen_c05(rng, tier):
 C05 = Spec('C05',
     kinds={'rhist': {'ser': gen_hist.ser_rhist, 'proj': None, 'shrink': gen_hist.shrink_rhist}},
     gen=gen_c05,
-    rule='histories of 1-9 calls on a ReplaceSource over a random inner leaf/tree (ASCII and multi-byte, lossy-decoded buffers): replace/insert/replace_with_enforce/insert_with_enforce with colliding (start,end) keys, overlaps, nesting, positions beyond the end; observers source/buffer/size/rope/to_writer/hash/stream/map and clone between any two mutators; non-trivial = at least 2 mutators',
+    rule='histories of 1-9 calls on a ReplaceSource over a random inner leaf/tree (ASCII and multi-byte, lossy-decoded buffers): replace/insert/replace_with_enforce/insert_with_enforce with colliding (start,end) keys, overlaps, nesting, positions beyond the end, and histories of 33-80 replacements over 2-4 keys pushed out of order; observers source/buffer/size/rope/to_writer/hash/stream/map and clone between any two mutators; non-trivial = at least 2 mutators',
     explanation='Props/C05.v: the object model with its lazily sorted index refines the reference replacement model written from the property text; correspondence compares the text every observer renders after every call; chk_C05 judges the implementation against the reference model',
     checker_name='ChkReplace.chk_C05', model_name='Sem/ReplaceObj.v + Stream/Replace.v',
 )
